@@ -60,14 +60,16 @@ def c14a(tree, ob):
         tgt = add._parent
         if not (isinstance(tgt, ast.Assign) and src(tgt.targets[0]) == 'self.' + timer):
             bad.append('timer id is not remembered')
-        # a reset RESTARTS the interval: whatever was running is stopped on every way through, also on one that arms nothing
-        # (a reset that leaves a running timer alone lets it fire up to a whole interval late: the silence after a
-        # transmission in mid-interval is then almost twice the negotiated time)
-        stop_nodes = {fv.node(c) for c in stops} | {fv.node(c) for c in calls_in(fv.func) if call_name(c) == 'glib.source_remove' and c.args and src(c.args[0]) == 'self.' + timer}
-        (always, wit) = fv.cfg.must_pass(fv.cfg.entry, fv.cfg.exit, stop_nodes, include_exc=False) if stop_nodes else (False, None)
-        if not always:
-            ob.violate(SESS, fv.qual, 'a way through {} without {}()'.format(reset, stop), 'the reset can return with the old timer still running: the interval is then not measured from this event '
-                       '(a message sent in mid-interval is followed by up to twice the negotiated keepalive time of silence; received traffic does not put off the idle timeout)', fv.func, path_text(wit or []), sure=True)
+        # a reset RESTARTS the interval: it does not leave by a way on which the timer is known to be running (a reset that
+        # leaves a running timer alone lets it fire up to a whole interval late: the silence after a transmission in
+        # mid-interval is then almost twice the negotiated time).  Positive evidence only: an exit reached under "the timer
+        # is armed" -- a stop (which clears the id) removes that fact.
+        armed = [('self.{} is None'.format(timer), False), ('self.{} is not None'.format(timer), True), ('self.{}'.format(timer), True)]
+        for (pred, _label, ef) in fv.exit_facts():
+            if any(a in ef for a in armed):
+                ob.violate(SESS, fv.qual, 'a way out of {} with the timer still armed ({})'.format(reset, pred.text()[:40]), 'the reset can return with the old timer still running: the interval is then not measured from this event '
+                           '(a message sent in mid-interval is followed by up to twice the negotiated keepalive time of silence; received traffic does not put off the idle timeout)', pred.ast or fv.func, sure=True)
+                break
         if bad:
             ob.violate(SESS, fv.qual, src(add)[:90], '; '.join(bad), add)
         else:
